@@ -692,41 +692,88 @@ func (d *Datastore) runDeviationUpdate(ctx context.Context, dm map[string]sdcpb.
 		return
 	}
 
+	// intended paths that are missing in the running config: the ruling intent is not applied,
+	// lower precedence intents with another value are overruled - the same as for the paths above,
+	// just without a current value
+	reported := map[string]struct{}{}
 	for _, upds := range intendedUpdates {
 		for _, upd := range upds {
-			path := strings.Join(upd.GetPath(), sep)
-			if _, exists := configPaths[path]; !exists {
+			pathKey := strings.Join(upd.GetPath(), sep)
+			if _, exists := configPaths[pathKey]; exists {
+				continue
+			}
+			if _, done := reported[pathKey]; done {
+				continue
+			}
+			reported[pathKey] = struct{}{}
 
-				// iv, err := upd.Value()
-				// if err != nil {
-				// 	log.Errorf("%s: failed to convert intent value: %v", d.Name(), err)
-				// 	continue
-				// }
-
-				path, err := d.schemaClient.ToPath(ctx, upd.GetPath())
+			// the keys meta carries no values, read all priorities of the path
+			intentsUpdatesAll := d.cacheClient.Read(ctx, d.Name(), &cache.Opts{
+				Store:    cachepb.Store_INTENDED,
+				Priority: -1,
+			}, [][]string{upd.GetPath()}, 0)
+			intentsUpdates := make([]*cache.Update, 0, len(intentsUpdatesAll))
+			for _, iu := range intentsUpdatesAll {
+				if slices.Equal(iu.GetPath(), upd.GetPath()) {
+					intentsUpdates = append(intentsUpdates, iu)
+				}
+			}
+			if len(intentsUpdates) == 0 {
+				continue
+			}
+			sort.Slice(intentsUpdates, func(i, j int) bool {
+				if intentsUpdates[i].Priority() == intentsUpdates[j].Priority() {
+					return intentsUpdates[i].TS() < intentsUpdates[j].TS()
+				}
+				return intentsUpdates[i].Priority() < intentsUpdates[j].Priority()
+			})
+			sp, err := d.schemaClient.ToPath(ctx, upd.GetPath())
+			if err != nil {
+				log.Error(err)
+				continue
+			}
+			scRsp, err := d.schemaClient.GetSchemaSdcpbPath(ctx, sp)
+			if err != nil {
+				log.Errorf("%s: failed to get path schema: %v ", d.Name(), err)
+				continue
+			}
+			var rulingValue *sdcpb.TypedValue
+			for idx, intUpd := range intentsUpdates {
+				iv, err := intUpd.Value()
 				if err != nil {
-					log.Error(err)
+					log.Errorf("%s: failed to convert intent value: %v", d.Name(), err)
 					continue
 				}
-				// scRsp, err := d.getSchema(ctx, path)
-				// if err != nil {
-				// 	log.Errorf("%s: failed to get path schema: %v ", d.Name(), err)
-				// 	continue
-				// }
-				// niv, err := d.typedValueToYANGType(iv, scRsp.GetSchema())
-				// if err != nil {
-				// 	log.Errorf("%s: failed to convert value to its YANG type: %v ", d.Name(), err)
-				// 	continue
-				// }
-
-				rsp := &sdcpb.WatchDeviationResponse{
-					Name:          d.Name(),
-					Intent:        upd.Owner(),
-					Event:         sdcpb.DeviationEvent_UPDATE,
-					Reason:        sdcpb.DeviationReason_NOT_APPLIED,
-					Path:          path,
-					ExpectedValue: nil, // TODO this need to be fixed
-					CurrentValue:  nil,
+				niv, err := utils.TypedValueToYANGType(iv, scRsp.GetSchema())
+				if err != nil {
+					log.Errorf("%s: failed to convert value to its YANG type: %v ", d.Name(), err)
+					continue
+				}
+				var rsp *sdcpb.WatchDeviationResponse
+				switch {
+				case idx == 0:
+					rulingValue = niv
+					rsp = &sdcpb.WatchDeviationResponse{
+						Name:          d.Name(),
+						Intent:        intUpd.Owner(),
+						Event:         sdcpb.DeviationEvent_UPDATE,
+						Reason:        sdcpb.DeviationReason_NOT_APPLIED,
+						Path:          sp,
+						ExpectedValue: niv,
+						CurrentValue:  nil,
+					}
+				case rulingValue != nil && !utils.EqualTypedValues(rulingValue, niv):
+					rsp = &sdcpb.WatchDeviationResponse{
+						Name:          d.Name(),
+						Intent:        intUpd.Owner(),
+						Event:         sdcpb.DeviationEvent_UPDATE,
+						Reason:        sdcpb.DeviationReason_OVERRULED,
+						Path:          sp,
+						ExpectedValue: niv,
+						CurrentValue:  rulingValue,
+					}
+				default:
+					continue
 				}
 				for _, dc := range dm {
 					err = dc.Send(rsp)
@@ -735,6 +782,8 @@ func (d *Datastore) runDeviationUpdate(ctx context.Context, dm map[string]sdcpb.
 						continue
 					}
 				}
+				xp := utils.ToXPath(sp, false)
+				newDeviations[xp] = append(newDeviations[xp], rsp)
 			}
 		}
 	}
